@@ -7,6 +7,7 @@ from pyasn1.codec.der import decoder as der_dec, encoder as der_enc
 from pyasn1.type import constraint, namedtype, univ
 
 from .. import core, tlc, tlaval, codec_run as R
+from . import compcons
 
 
 def build(c):
@@ -763,9 +764,12 @@ def run(ctx):
         named_part(ctx, sc)
         real_part(ctx, sc)
         scalar_part(ctx, sc)
+        compcons.part(ctx, sc, 'C14')
     ctx.rule = ('every state of the generator machine spec/Constraint.tla: (expression tree of depth <= %d over single value, range, '
                 'size, alphabet, intersection, union, exclusion) x candidate values around every boundary; derivation chains '
                 'T0 -> c1 -> c2; value-producing operations (+ - * // %% neg abs << >> ** ; concatenation, slicing, repetition; '
                 'decode) on admitted operands; each state replayed into pyasn1 and compared with the model verdict; plus every history of '
-                '<= 2 (quick) / 3 (thorough) BIT STRING operations of spec/BitStr.tla compared observable by observable') % depth
+                '<= 2 (quick) / 3 (thorough) BIT STRING operations of spec/BitStr.tla compared observable by observable; plus every case of '
+                'spec/CompCons.tla (component presence / absence, SIZE of SEQUENCE OF / SET OF under and/or/not, derived types): '
+                'constraint call, isInconsistent and the BER / CER / DER / native encoders refuse exactly the values outside the denotation') % depth
     ctx.exhaustive = True
